@@ -74,20 +74,20 @@ CRASH_PROFILES = {
     # MaxOps, nworkloads(quick, thorough), geoms, per_run, expand_next, depth(quick, thorough)
     "C01": dict(consts=dict(MaxIdx=7, Starts={1, 3}, MaxBatch=2, Sizes={1, 2}, MaxOps=5, Keys={1}, Vals={0, 2},
                             WithBad=False, WithReopen=True, WithStable=False, MinOps=5),
-                n=(6, 20), geoms=((64, 128), (64, 96, 128, 512)), per_run=((300, 40), (1000, 120, 50)),
-                expand_next=(4, 8), depth=(2, 3), bin_jobs=(2, 6)),
+                n=(6, 20), geoms=((64, 128), (64, 96, 128, 512)), per_run=((300, 40), (1000, 100, 40)),
+                expand_next=(4, (5, 1)), depth=(2, 3), bin_jobs=(2, 6)),
     "C02": dict(consts=dict(MaxIdx=6, Starts={1}, MaxBatch=2, Sizes={1, 2}, MaxOps=3, Keys={1}, Vals={0, 2},
                             WithBad=False, WithReopen=False, WithStable=False, MinOps=3),
-                n=(5, 16), geoms=((512,), (128, 512)), per_run=((200, 100, 30), (1000, 200, 80)),
-                expand_next=(5, 12), depth=(3, 3), bin_jobs=(1, 4), chain=True),
+                n=(5, 16), geoms=((512,), (128, 512)), per_run=((200, 60, 24), (1000, 150, 60)),
+                expand_next=((4, 1), (8, 2)), depth=(3, 3), bin_jobs=(1, 4), chain=True),
     "C03": dict(consts=dict(MaxIdx=7, Starts={1, 4}, MaxBatch=2, Sizes={1, 2}, MaxOps=4, Keys={1}, Vals={0, 2},
                             WithBad=False, WithReopen=True, WithStable=False, MinOps=4),
-                n=(6, 20), geoms=((64, 96), (64, 96, 128)), per_run=((300, 40), (1000, 120, 50)),
-                expand_next=(4, 8), depth=(2, 3), bin_jobs=(2, 6)),
+                n=(6, 20), geoms=((64, 96), (64, 96, 128)), per_run=((300, 40), (1000, 100, 40)),
+                expand_next=(4, (5, 1)), depth=(2, 3), bin_jobs=(2, 6)),
     "C04": dict(consts=dict(MaxIdx=6, Starts={1}, MaxBatch=2, Sizes={1}, MaxOps=5, Keys={1}, Vals={0, 2},
                             WithBad=False, WithReopen=False, WithStable=False, MinOps=5),
-                n=(8, 20), geoms=((64, 96), (64, 96, 160)), per_run=((300, 40), (1000, 120, 50)),
-                expand_next=(4, 8), depth=(2, 3), bin_jobs=(2, 6), need_delete=True),
+                n=(8, 20), geoms=((64, 96), (64, 96, 160)), per_run=((300, 40), (1000, 100, 40)),
+                expand_next=(4, (5, 1)), depth=(2, 3), bin_jobs=(2, 6), need_delete=True),
 }
 CRASH_PROFILES["C13"] = dict(CRASH_PROFILES["C04"])
 
